@@ -136,6 +136,24 @@ class Prop:
             else:
                 lines = gen.random_interleaving(rng, sets)
             seqs.append(('zero-vs-empty%d' % i, lines))
+        # many messages in flight at once, each in its own slot - more than the ids 0-9 on two channels give: other
+        # channel designators, two-digit ids (whose text run together with the channel must not collide: 1 + '1', 11 + '')
+        slots = [(s_, c) for c in ['A', 'B', '1', '2', '', 'C', 'D'] for s_ in [''] + [str(i) for i in range(13)]]
+        for i, n in enumerate([23, 34, 66, 70, len(slots)] if ctx.tier == 'quick' else [23, 33, 34, 65, 66, 70, 98] * 6):
+            chosen = rng.sample(slots, n)
+            for must in (('1', '1'), ('11', '')):
+                if must not in chosen:
+                    chosen[0 if must[0] == '1' else 1] = must
+            sets = []
+            for seq, chan in chosen:
+                bits = gen.payload_bits(rng, rng.choice(['MessageType5', 'MessageType8']), length=rng.randint(430, 600))
+                payload, _ = gen.armor(bits)
+                sets.append(gen.render(bits, seq=seq, chan=chan, cuts=[rng.randint(10, 60)]))
+            if i % 2 == 0:
+                lines = [f[0] for f in sets] + [gen.gatehouse()] + [f[1] for f in sets]
+            else:
+                lines = gen.random_interleaving(rng, sets)
+            seqs.append(('many-slots%d-%d' % (n, i), lines))
         # slot histories: several fragment sets one after the other in ONE (sequence id, channel) slot, some of
         # them incomplete (the receiver missed fragments), so that leftovers of earlier sets are still around when a
         # later set of another size arrives; all front-ends must agree on every later delivery
